@@ -1,0 +1,99 @@
+//go:build verif
+
+// Contracts for the deductive verifier in /verif (govc). Only compiled with -tags verif.
+
+package state
+
+// ---- C05: persisted form mirrors the state; identifier counters only grow -----------------------
+//
+// json.Marshal / json.Unmarshal themselves are outside the verified code (assumption: encoding/json
+// round-trips an exported-field struct). What is proved is that the structs handed to / received from
+// encoding/json carry EVERY field of the persisted form from / to the live object: mirrors(a, b, excl)
+// enumerates the fields of a's struct type from the Go type information on every run, so a field that
+// is added to the persisted form, or one that is no longer copied, fails the obligation.
+
+// identifier counters: the only stores are "+1" (handing out an id) and the reload
+//@ fieldguard [C05] State.lastTaskId: val == oldval + 1 || infunc("UnmarshalJSON")
+//@ fieldguard [C05] State.lastChangeId: val == oldval + 1 || infunc("UnmarshalJSON")
+//@ fieldguard [C05] State.lastLaneId: val == oldval + 1 || infunc("UnmarshalJSON")
+//@ fieldguard [C05] State.lastNoticeId: val == oldval + 1 || infunc("UnmarshalJSON")
+
+//@ func newTask
+//@   props C05
+//@   ensures result != nil && !old(allocated(result)) && result.id == id && result.kind == kind && result.summary == summary && result.state == state
+//@   ensures result.status == DefaultStatus && result.change == "" && len(result.waitTasks) == 0 && len(result.haltTasks) == 0 && len(result.lanes) == 0
+
+//@ func newChange
+//@   props C05
+//@   ensures result != nil && !old(allocated(result)) && result.id == id && result.kind == kind && result.summary == summary && result.state == state
+//@   ensures result.status == DefaultStatus && len(result.taskIDs) == 0
+
+// the id handed out is the decimal form of the incremented counter, so (Itoa being injective) it
+// differs from every id handed out while the counter was smaller
+//@ func (*State).NewTask
+//@   props C05
+//@   requires s != nil && s.tasks != nil
+//@   ensures s.lastTaskId == old(s.lastTaskId) + 1
+//@   ensures result != nil && result.id == strconv.Itoa(s.lastTaskId) && s.tasks[result.id] == result
+//@   ensures forall k string :: k != result.id ==> s.tasks[k] == old(s.tasks[k]) && has(s.tasks, k) == old(has(s.tasks, k))
+//@   ensures s.lastChangeId == old(s.lastChangeId) && s.lastLaneId == old(s.lastLaneId) && s.lastNoticeId == old(s.lastNoticeId)
+
+//@ func (*State).NewLane
+//@   props C05
+//@   requires s != nil
+//@   ensures s.lastLaneId == old(s.lastLaneId) + 1 && result == s.lastLaneId
+//@   ensures s.lastChangeId == old(s.lastChangeId) && s.lastTaskId == old(s.lastTaskId) && s.lastNoticeId == old(s.lastNoticeId)
+
+//@ func (*Task).MarshalJSON
+//@   props C05
+//@   requires t != nil && t.state != nil
+//@   guard call json.Marshal: mirrors(arg0v, t, "ReadyTime AtTime")
+//@   guard call json.Marshal: (arg0v.ReadyTime == nil) == t.readyTime.IsZero() && (arg0v.AtTime == nil) == t.atTime.IsZero()
+
+//@ func (*Task).UnmarshalJSON
+//@   props C05
+//@   requires t != nil
+//@   ensures result == nil ==> mirrors(final(unmarshalled), t, "WaitedStatus Data ReadyTime AtTime")
+//@   ensures result == nil ==> t.waitedStatus == ite(final(unmarshalled).WaitedStatus == DefaultStatus, DoneStatus, final(unmarshalled).WaitedStatus)
+//@   ensures result == nil && final(unmarshalled).Data != nil ==> t.data == final(unmarshalled).Data
+//@   ensures result == nil ==> t.data != nil
+//@   ensures result == nil && final(unmarshalled).ReadyTime != nil ==> t.readyTime == *final(unmarshalled).ReadyTime
+//@   ensures result == nil && final(unmarshalled).AtTime != nil ==> t.atTime == *final(unmarshalled).AtTime
+
+//@ func (*Change).MarshalJSON
+//@   props C05
+//@   requires c != nil && c.state != nil
+//@   guard call json.Marshal: mirrors(arg0v, c, "ReadyTime")
+//@   guard call json.Marshal: (arg0v.ReadyTime == nil) == c.readyTime.IsZero()
+
+//@ func (*Change).UnmarshalJSON
+//@   props C05
+//@   requires c != nil
+//@   ensures result == nil ==> mirrors(final(unmarshalled), c, "Data ReadyTime")
+//@   ensures result == nil && final(unmarshalled).Data != nil ==> c.data == final(unmarshalled).Data
+//@   ensures result == nil ==> c.data != nil
+//@   ensures result == nil && final(unmarshalled).ReadyTime != nil ==> c.readyTime == *final(unmarshalled).ReadyTime
+
+// Warnings and Notices are maps in the live state and lists in the persisted form (flatten*/unflatten*)
+//@ func (*State).MarshalJSON
+//@   props C05
+//@   requires s != nil
+//@   guard call json.Marshal: mirrors(arg0v, s, "Warnings Notices")
+
+//@ func (*State).UnmarshalJSON
+//@   props C05
+//@   requires s != nil
+//@   ensures result == nil ==> mirrors(final(unmarshalled), s, "Warnings Notices")
+
+//@ func (*Notice).MarshalJSON
+//@   props C05
+//@   requires n != nil
+//@   guard call json.Marshal: mirrors(arg0v, n, "Type RepeatAfter ExpireAfter")
+//@   guard call json.Marshal: arg0v.Type == n.noticeType
+//@   guard call json.Marshal: (n.repeatAfter == 0 ==> arg0v.RepeatAfter == "") && (n.expireAfter == 0 ==> arg0v.ExpireAfter == "")
+
+//@ func (*Notice).UnmarshalJSON
+//@   props C05
+//@   requires n != nil
+//@   ensures result == nil ==> mirrors(final(jn), n, "Type RepeatAfter ExpireAfter")
+//@   ensures result == nil ==> n.noticeType == final(jn).Type
